@@ -25,6 +25,22 @@ PT_INV = {v: k for k, v in PT.items()}
 
 
 UNKNOWN_TYPES = [0x4002, 0xF001, 0x9ABC, 0x0004]
+# payload types the client does not parse, for the frames WITH a payload of a chosen length ("Unk:<len>",
+# "UnkM:<len>"): defined ones a tester has no use for on its TCP connection (entity status request / response, power
+# mode response, vehicle announcement), the manufacturer specific range 0xF000-0xFFFF, unassigned numbers (also the
+# neighbours of the diagnostic payload types)
+UNPARSED_TYPES = [0x4002, 0xF011, 0x4004, 0x0004, 0x8004, 0xF0A5, 0xFFFF, 0x8000, 0x7FFF, 0x9ABC, 0x4001, 0xF000]
+# what a parser that lost frame synchronisation inside such a payload would find there: complete, well-formed frames
+# for us (a negative response relayed from the target to our source address)
+PHANTOM_DATA = [0x7F, 0x22, 0x33]
+
+
+def unparsed_payload(length: int, prefix: bytes = b"", ver: int = 3) -> list[int]:
+    """`length` payload bytes of a frame the client has no parser for: `prefix`, then back-to-back diagnostic
+    messages target -> source (header + addresses + PHANTOM_DATA, 15 bytes each), truncated to `length`."""
+    one = hdr(ver, PT["Diag"], 4 + len(PHANTOM_DATA)) + struct.pack("!HH", TGT, SRC) + bytes(PHANTOM_DATA)
+    buf = prefix + one * (length // len(one) + 2)
+    return list(buf[:length])
 
 
 def hdr(ver: int, ptype: int, length: int) -> bytes:
@@ -40,7 +56,7 @@ def enc(frame: dict[str, Any], ver: int = 3) -> bytes:
     elif k == "AliveReq":
         p = b""
     elif k == "Unknown":
-        p = bytes([0, 1, 1])
+        p = bytes(frame.get("p", (0, 1, 1)))
     elif k == "RoutingResp":
         p = struct.pack("!HHBI", frame["dst"], frame["src"], frame["code"], 0)
     elif k == "HeaderNack":
@@ -80,6 +96,8 @@ def gw_frame(name: str, req: bytes, n: int) -> dict[str, Any]:
     """Gateway alphabet. `req` = data of the client's (current/last) request, `n` = running number
     used to give every diagnostic message for us distinct user data."""
     base = {"src": TGT, "dst": SRC, "code": 0, "d": []}
+    if name.startswith("X/"):  # the same frame under a name of its own (the frame under test of a scenario)
+        return gw_frame(name[2:], req, n)
     if name == "Ack":
         return {**base, "k": "Ack", "d": list(req)}
     if name == "AckEmpty":
@@ -108,6 +126,24 @@ def gw_frame(name: str, req: bytes, n: int) -> dict[str, Any]:
         return {**base, "k": "Unknown", "pt": UNKNOWN_TYPES[n % len(UNKNOWN_TYPES)]}
     if name == "HeaderNack":
         return {**base, "k": "HeaderNack", "code": 2}
+    if name.startswith(("Unk:", "UnkM:")):
+        # unparsed payload type WITH a payload of the given length.  "Unk:<len>": the payload is a run of well-formed
+        # diagnostic messages for us; "UnkM:<len>": the same behind two addresses (a gateway mirroring the traffic of
+        # another tester in a manufacturer specific frame).  The payload type rotates with the length and the position.
+        kind, ln = name.split(":")
+        length = int(ln)
+        prefix = struct.pack("!HH", 0x0E80, TGT) if kind == "UnkM" else b""
+        return {**base, "k": "Unknown", "pt": UNPARSED_TYPES[(n + length) % len(UNPARSED_TYPES)],
+                "p": unparsed_payload(length, prefix)}
+    if name.startswith(("DiagUs:", "DiagOther:", "DiagOtherDst:")):
+        # diagnostic messages with <len> bytes of user data (for us: distinct per n; foreign pair: phantom frames)
+        kind, ln = name.split(":")
+        length = int(ln)
+        if kind == "DiagUs":
+            d = [0x62, 0xF1, n & 0xFF] + [(7 * i + n) & 0xFF for i in range(length)]
+            return {**base, "k": "Diag", "d": d[:length]}
+        other = {"src": OTHER} if kind == "DiagOther" else {"dst": OTHER}
+        return {**base, **other, "k": "Diag", "d": unparsed_payload(length)}
     raise ValueError(name)
 
 
@@ -158,22 +194,27 @@ class Gateway:
                 if self.on_diag_out is not None:
                     self.on_diag_out(f)
 
-    def feed_named(self, name: str, cut: int | None = None, gap_ms: int = 0) -> None:
+    def feed_named(self, name: str, cut: int | list[int] | tuple[int, ...] | None = None, gap_ms: int = 0) -> None:
         self.nfeeds += 1
         self.feed(gw_frame(name, self.last_req, self.nfeeds), cut=cut, gap_ms=gap_ms)
 
-    def feed(self, frame: dict[str, Any], cut: int | None = None, gap_ms: int = 0) -> None:
-        """Send one frame, optionally cut into two TCP segments (`gap_ms` apart; 0 = next loop
-        iteration).  Bytes stay in stream order: later frames queue behind a pending remainder."""
+    def feed(self, frame: dict[str, Any], cut: int | list[int] | tuple[int, ...] | None = None,
+             gap_ms: int = 0) -> None:
+        """Send one frame, optionally cut into TCP segments at the offset(s) `cut` (`gap_ms` apart; 0 = next
+        loop iteration).  Bytes stay in stream order: later frames queue behind a pending remainder."""
         assert self.wire is not None
         raw = enc(frame, self.ver)
         f = {"k": frame["k"], "src": frame.get("src", -1), "dst": frame.get("dst", -1),
              "code": frame.get("code", -1), "d": list(frame.get("d", [])), "ver": frame.get("ver", self.ver)}
-        if cut is None or cut <= 0 or cut >= len(raw):
+        cuts = [] if cut is None else [cut] if isinstance(cut, int) else list(cut)
+        cuts = sorted({c for c in cuts if 0 < c < len(raw)})
+        if not cuts:
             self._q.append([raw, f, None])
         else:
-            self._q.append([raw[:cut], None, None])
-            self._q.append([raw[cut:], f, gap_ms])
+            bounds = [0] + cuts + [len(raw)]
+            for i in range(len(bounds) - 1):
+                last = i == len(bounds) - 2
+                self._q.append([raw[bounds[i]:bounds[i + 1]], f if last else None, gap_ms if i > 0 else None])
         self._pump()
 
     def _pump(self) -> None:
